@@ -13,7 +13,7 @@ RULE = ("Programs are lists of items (NOP, RMB n, LDA 100,X, LDX #$1234, a branc
         "/ label+-k,PCR operand) with labels attached to items, so every byte distance is known by construction. "
         "Enumerated: every short branch x both directions x every displacement -140..+140; every long branch x both "
         "directions x 0..140 (all 19) and 32750..32780 (LBRA LBSR LBEQ LBNE); all 38 branches to label+-k (k in 1,2,5) "
-        "at four distances, which may be refused but if accepted must reach label+k; label,PCR on LDA LEAX STA JMP (1-byte "
+        "at four distances, which may be refused but if accepted must reach label+k; label,pcr / [label,Pcr] (register in lower or mixed case: refused, or the PC-relative form); label,PCR on LDA LEAX STA JMP (1-byte "
         "opcode) and LDY STS CMPD (2-byte) x plain/indirect x k in {-2,0,+2} x both directions x distance 0..140 with "
         "three filler styles, and 32750..32780 for LDA/LDY; constants of +-100..200 with the label in either order of "
         "writing (T0+120 and 120+T0) at distances 0..35; offsets written with an explicit < or > prefix at distances "
@@ -70,7 +70,7 @@ def item_text(item):
             tgt = "%d+%s" % (k, item["to"])
         else:
             tgt = item["to"] + ("" if k == 0 else ("+%d" % k if k > 0 else "-%d" % -k))
-        body = item.get("pre", "") + tgt + ",PCR"          # an explicit < or > size prefix on the offset
+        body = item.get("pre", "") + tgt + "," + item.get("reg", "PCR")          # an explicit < or > size prefix on the offset
         return A.line(lab, item["mn"], "[" + body + "]" if item.get("ind") else body)
     raise KeyError(t)
 
@@ -158,6 +158,14 @@ def enumerated(tier, seed):
             for dist in (0, 1, 10, 100):
                 for forward in (True, False):
                     yield one_source(dict(t="br", mn=mn, to="T0", k=k), dist, forward, dist % 3)
+    # 1c. the register of a PC-relative operand written in lower or mixed case, plain and indirect
+    for mn in PCR1 + PCR2:
+        for ind in (False, True):
+            for reg in ("pcr", "Pcr", "pCR"):
+                for k in (0, 2):
+                    for dist in (0, 5, 130):
+                        for forward in (True, False):
+                            yield one_source(dict(t="pcr", mn=mn, ind=ind, to="T0", k=k, reg=reg), dist, forward, dist % 3)
     # 2. long branches
     for mn in LONG:
         far = range(32750, 32781) if mn in ("LBRA", "LBSR", "LBEQ", "LBNE") else []
@@ -407,6 +415,10 @@ def execute(case):
                 near = True
         if it["t"] == "pcr" and it.get("pre") == "<" and (dmax > 127 or dmin < -128):
             may_reject = True       # a forced 8-bit offset that cannot hold the displacement
+        if it["t"] == "pcr" and it.get("reg", "PCR") != "PCR":
+            may_reject = True       # pcr / Pcr: the tool may insist on upper case; accepted, it is the PC-relative form
+            if "pcr_lower_case" not in labels:
+                labels.append("pcr_lower_case")
         if it["t"] == "br" and it.get("k", 0):
             may_reject = True       # the tool may refuse a label expression as a branch target; accepted, it must be reached
             if "branch_with_constant" not in labels:
